@@ -485,6 +485,7 @@ pub fn run(s: &ScnT, ctx: &mut RunCtx, prefix: &'static str) -> RunOutput {
     let mut hasher = std::collections::hash_map::DefaultHasher::new();
     serde_json::to_string(s).unwrap().hash(&mut hasher);
     out.trace_hash.hash(&mut hasher);
+    world::digest(&log).hash(&mut hasher);
     let mut probes = BTreeMap::new();
     probes.insert("service_on_threads_runs", 1);
     let _ = world::take();
